@@ -2,16 +2,20 @@
 (* C07, model level: TLC enumerates every switching / in_service configuration of template T4 (minus the  *)
 (* pinned flags of this run) and checks that the power-flow route and the topology route agree.  The       *)
 (* dumped states (f, out) are the implementation tests replayed by harness/checks/c07.py.                  *)
-EXTENDS Topology
-CONSTANTS PinTrue, PinFalse
+EXTENDS Topology, FiniteSetsExt
+CONSTANTS PinTrue, PinFalse, BallK
 VARIABLES f, out
 
 Free == (Flags \ PinTrue) \ PinFalse
 Configs == {[x \in Flags |-> IF x \in PinTrue THEN TRUE ELSE IF x \in PinFalse THEN FALSE ELSE h[x]] :
               h \in [Free -> BOOLEAN]}
+\* quick tier: every configuration that differs from the base point (everything in service / closed, no switch impedance)
+\* in at most BallK flags - all interactions of up to BallK deviations; BallK = 0 selects the pinned sub-cube instead
+Base == [x \in Flags |-> x # "z0"]
+Ball == {[x \in Flags |-> IF x \in S THEN ~Base[x] ELSE Base[x]] : S \in UNION {kSubset(k, Flags) : k \in 0..BallK}}
 Derive(g) == [is |-> BusIS(g), sup |-> SuppliedPF(g), unsup |-> UnsuppliedTopo(g)]
 
-Init == f \in Configs /\ out = Derive(f)
+Init == f \in (IF BallK = 0 THEN Configs ELSE Ball) /\ out = Derive(f)
 Next == UNCHANGED <<f, out>>
 
 \* model-level theorems, checked on every configuration
